@@ -734,6 +734,117 @@ def inventory_global_writes(pkg: Pkg):
     return out
 
 
+def stateful_modules(pkg: Pkg):
+    """Modules of the package that hold state across calls: lru_cache / cache decorators, `global` statements,
+    module-level instances of own classes, module-level containers mutated inside functions.  -> {rel: [reasons]}"""
+    out = {}
+    for rel, tree in pkg.mods.items():
+        why = []
+        classes = {n.name for n in tree.body if isinstance(n, ast.ClassDef)}
+        containers = set()
+        for n in tree.body:
+            tgt = n.targets[0] if isinstance(n, ast.Assign) and len(n.targets) == 1 else n.target if isinstance(n, ast.AnnAssign) else None
+            val = getattr(n, "value", None)
+            if isinstance(tgt, ast.Name) and val is not None:
+                if isinstance(val, ast.Call) and isinstance(val.func, ast.Name) and val.func.id in classes:
+                    # an instance is state only if one of its methods (other than __init__) stores through self
+                    cdef = next(c for c in tree.body if isinstance(c, ast.ClassDef) and c.name == val.func.id)
+                    mut = False
+                    for m in [x for x in cdef.body if isinstance(x, ast.FunctionDef) and x.name not in ("__init__", "__post_init__")]:
+                        for y in ast.walk(m):
+                            if isinstance(y, (ast.Attribute, ast.Subscript)) and isinstance(y.ctx, ast.Store):
+                                r = y
+                                while isinstance(r, (ast.Attribute, ast.Subscript)):
+                                    r = r.value
+                                mut |= isinstance(r, ast.Name) and r.id == "self"
+                            if isinstance(y, ast.Call) and isinstance(y.func, ast.Attribute) and y.func.attr in MUTATORS:
+                                r = y.func.value
+                                while isinstance(r, (ast.Attribute, ast.Subscript)):
+                                    r = r.value
+                                mut |= isinstance(r, ast.Name) and r.id == "self" and r is not y.func.value
+                    if mut:
+                        why.append(f"module-level instance {tgt.id} = {val.func.id}() with self-mutating methods")
+                if isinstance(val, (ast.Dict, ast.List, ast.Set)) or (isinstance(val, ast.Call) and isinstance(val.func, ast.Name)
+                                                                    and val.func.id in ("dict", "list", "set", "defaultdict", "OrderedDict")):
+                    containers.add(tgt.id)
+        for n in ast.walk(tree):
+            if isinstance(n, (ast.FunctionDef, ast.AsyncFunctionDef)):
+                for d in n.decorator_list:
+                    dn = d.func if isinstance(d, ast.Call) else d
+                    nm = dn.id if isinstance(dn, ast.Name) else dn.attr if isinstance(dn, ast.Attribute) else ""
+                    if nm in ("lru_cache", "cache", "cached_property") and nm != "cached_property":
+                        why.append(f"@{nm} {n.name}")
+                for m in ast.walk(n):
+                    if isinstance(m, ast.Global):
+                        why.append(f"global {','.join(m.names)} in {n.name}")
+                    tg = None
+                    if isinstance(m, ast.Assign):
+                        tg = m.targets[0]
+                    elif isinstance(m, ast.AugAssign):
+                        tg = m.target
+                    if isinstance(tg, ast.Subscript) and isinstance(tg.value, ast.Name) and tg.value.id in containers:
+                        why.append(f"{tg.value.id}[...] = in {n.name}")
+                    if isinstance(m, ast.Call) and isinstance(m.func, ast.Attribute) and m.func.attr in MUTATORS \
+                            and isinstance(m.func.value, ast.Name) and m.func.value.id in containers:
+                        why.append(f"{m.func.value.id}.{m.func.attr} in {n.name}")
+        if why:
+            out[rel] = sorted(set(why))
+    return out
+
+
+def import_closure(pkg: Pkg, rel):
+    """package modules (transitively) imported by module rel, function-level imports included"""
+    def resolve(mod):
+        cand = mod.replace(".", "/")
+        for r in (cand + ".py", cand + "/__init__.py"):
+            if r in pkg.mods:
+                return r
+        return None
+    seen, stack = set(), [rel]
+    while stack:
+        r = stack.pop()
+        if r in seen or r not in pkg.mods:
+            continue
+        seen.add(r)
+        for n in ast.walk(pkg.mods[r]):
+            if isinstance(n, ast.ImportFrom) and n.module and n.level == 0 and n.module.startswith("sharepoint2text"):
+                for cand in [n.module] + [n.module + "." + a.name for a in n.names]:
+                    q = resolve(cand)
+                    if q:
+                        stack.append(q)
+            elif isinstance(n, ast.Import):
+                for a in n.names:
+                    q = resolve(a.name) if a.name.startswith("sharepoint2text") else None
+                    if q:
+                        stack.append(q)
+    return seen
+
+
+def history_pairs(pkg: Pkg, exts):
+    """ordered pairs (b, a) of extensions handled by DIFFERENT extractor modules that share a stateful module"""
+    from sharepoint2text.parsing import router
+    st = stateful_modules(pkg)
+    mod_of = {}
+    for e in exts:
+        try:
+            f = router.get_extractor("x" + e)
+            mod_of[e] = f.__module__.replace(".", "/") + ".py"
+        except Exception:  # noqa
+            pass
+    shared = {}
+    for e, m in mod_of.items():
+        shared[e] = {x for x in import_closure(pkg, m) if x in st}
+    # one representative extension per extractor module (the aliases .docm/.dotx ... behave like their base)
+    rep = {}
+    for e in sorted(mod_of):
+        rep.setdefault(mod_of[e], e)
+    reps = sorted(rep.values())
+    # state shared by EVERY extractor is already exercised by "isolated vs after all other formats"; the targeted pairs
+    # are for state shared by some formats only, where a third format in between could mask the effect
+    ubiquitous = set.intersection(*[shared[e] for e in reps]) if reps else set()
+    return [(b, a) for b in reps for a in reps if b != a and (shared[b] & shared[a]) - ubiquitous]
+
+
 USE_OK = {"UNone", "UMember", "ULen", "UAnyAll", "USorted"}
 
 
@@ -1508,6 +1619,30 @@ def leaf_digests(j):
     return {k: h.hexdigest()[:16] for k, h in acc.items()}
 
 
+HOSTILE_TYPE = "application/x-c06-hostile"
+
+
+def apply_mime_config(kind):
+    """Process-wide mimetypes database of the worker: "" (host default), "empty" (knows nothing), "hostile" (every
+    extension the fixtures / generators use, and every extension the default database knows, maps to a wrong type)."""
+    import mimetypes
+    if kind == "empty":
+        db = mimetypes.MimeTypes(filenames=())
+        for m in (db.types_map, db.types_map_inv, db.encodings_map, db.suffix_map):
+            for d in (m if isinstance(m, tuple) else (m,)):
+                d.clear()
+        mimetypes._db = db
+        mimetypes.inited = True
+        for name in ("types_map", "common_types", "encodings_map", "suffix_map"):
+            getattr(mimetypes, name).clear()
+    elif kind == "hostile":
+        mimetypes.init()
+        exts = set(mimetypes.types_map) | set(mimetypes.common_types) | {"." + e for e in ODF_PICTURE_EXT} | \
+            {".png", ".xhtml", ".html", ".css", ".ncx", ".opf", ".xml", ".rels"}
+        for e in sorted(exts):
+            mimetypes.add_type(HOSTILE_TYPE, e, strict=True)
+
+
 def worker_main(argv):
     """python c06.py --worker <out.json> <root> [<root> ...] : extract every supported file under the roots in one
     full pass, then all of them again in reverse order (A, B, ..., B, A): the second extraction of every input
@@ -1516,13 +1651,17 @@ def worker_main(argv):
     logging.disable(logging.CRITICAL)
     import warnings
     warnings.filterwarnings("ignore")
+    apply_mime_config(os.environ.get("C06_MIME", ""))     # before anything of the package is imported
     from sharepoint2text.parsing.router import get_extractor, is_supported_file
     inputs = []
-    only_ext = os.environ.get("C06_ONLY_EXT", "")     # isolated-history worker: inputs of one extension only
+    # history workers: "ext" = only inputs of that extension; "b,a" = all inputs of b first, then those of a
+    only = [e for e in os.environ.get("C06_ONLY_EXT", "").split(",") if e]
     for k, root in enumerate(Path(a) for a in argv[1:]):
         for p in sorted(root.rglob("*")):
-            if p.is_file() and is_supported_file(str(p)) and (not only_ext or p.suffix.lower() == only_ext):
+            if p.is_file() and is_supported_file(str(p)) and (not only or p.suffix.lower() in only):
                 inputs.append((("" if k == 0 else f"@{k}/") + str(p.relative_to(root)), p))
+    if only:
+        inputs.sort(key=lambda x: only.index(x[1].suffix.lower()))      # stable: path order inside one extension
     res = {rel: [] for rel, _ in inputs}
     for order in (inputs, list(reversed(inputs))):
         for rel, p in order:
@@ -1543,32 +1682,30 @@ def worker_main(argv):
     Path(argv[0]).write_text(json.dumps(res))
 
 
-def spawn_workers(ctx, seeds, roots, outdir, only_exts=None, parallel=10):
-    """one subprocess per (hash seed) or, with only_exts, per extension (isolated process history); at most
-    `parallel` at a time.  -> [(seed or ext, result dict)]"""
-    jobs = [("seed", sd) for sd in seeds] if only_exts is None else [("ext", e) for e in only_exts]
+def spawn_workers(ctx, jobs, roots, outdir, parallel=10):
+    """jobs: [(label, {env})] -> one subprocess each (PYTHONHASHSEED=0 unless given), at most `parallel` at a time.
+    -> [(label, result dict)]"""
     results = []
     for start in range(0, len(jobs), parallel):
         procs = []
-        for i, (kind, val) in enumerate(jobs[start:start + parallel]):
+        for i, (label, extra) in enumerate(jobs[start:start + parallel]):
             env = dict(os.environ)
-            env["PYTHONHASHSEED"] = str(val) if kind == "seed" else "0"
-            if kind == "ext":
-                env["C06_ONLY_EXT"] = val
-            out = outdir / f"w{kind}{start + i}.json"
-            procs.append((val, out, subprocess.Popen(
+            env["PYTHONHASHSEED"] = "0"
+            env.update({k: str(v) for k, v in extra.items()})
+            out = outdir / f"w{start + i}-{abs(hash(str(label))) % 10**8}.json"
+            procs.append((label, out, subprocess.Popen(
                 [sys.executable, str(Path(__file__).resolve()), "--worker", str(out)] + [str(r) for r in roots],
                 env=env, stdout=subprocess.PIPE, stderr=subprocess.STDOUT, text=True)))
-        for val, out, p in procs:
+        for label, out, p in procs:
             try:
                 log, _ = p.communicate(timeout=900)
             except subprocess.TimeoutExpired:
                 p.kill()
                 log = "timeout"
             if p.returncode != 0 or not out.exists():
-                ctx.obligation(f"worker({val})-completed", False, (log or "")[-800:])
+                ctx.obligation(f"worker({label})-completed", False, (log or "")[-800:])
                 continue
-            results.append((val, json.loads(out.read_text())))
+            results.append((label, json.loads(out.read_text())))
             out.unlink()
     return results
 
@@ -1794,11 +1931,19 @@ def run(ctx):
     all_exts = sorted({p.suffix.lower() for p in list(resources.rglob("*")) + list(gen_root.rglob("*"))
                        if p.is_file() and is_supported_file(str(p))})
     with tempfile.TemporaryDirectory(dir="/var/tmp") as td:
-        results = spawn_workers(ctx, seeds, [resources, gen_root], Path(td))
+        results = spawn_workers(ctx, [(sd, {"PYTHONHASHSEED": sd}) for sd in seeds], [resources, gen_root], Path(td))
         mark("seed-workers")
         # process HISTORY: every input also in a fresh process that touches only inputs of the same extension
         # (nothing else imported / extracted before) -- compared with the extraction after everything else
-        solo = spawn_workers(ctx, [], [resources, gen_root], Path(td), only_exts=all_exts, parallel=4)
+        solo = spawn_workers(ctx, [(e, {"C06_ONLY_EXT": e}) for e in all_exts], [resources, gen_root], Path(td), parallel=4)
+        # targeted pairs B -> A: formats whose extractors (transitively) import a module that holds state
+        pairs = history_pairs(pkg, all_exts)
+        ctx.extra["history_pairs"] = [f"{b}->{a}" for b, a in pairs]
+        paired = spawn_workers(ctx, [((b, a), {"C06_ONLY_EXT": f"{b},{a}"}) for b, a in pairs], [resources, gen_root],
+                               Path(td), parallel=4)
+        mark("history-workers")
+        # host MIME database: emptied and hostile
+        mimed = spawn_workers(ctx, [(m, {"C06_MIME": m}) for m in ("empty", "hostile")], [resources, gen_root], Path(td), parallel=2)
     ctx.extra["isolated_history_workers"] = [e for e, _ in solo]
     ctx.obligation("isolated-history workers cover every extension", len(solo) == len(all_exts), f"{len(solo)} of {len(all_exts)}")
     ctx.obligation("workers>=8-hash-seeds", len({s for s, _ in results}) >= 8, f"only {len(results)} workers completed")
@@ -1853,11 +1998,38 @@ def run(ctx):
                                     f"vs. the same process after all other formats were extracted ({origin} {rel}, same PYTHONHASHSEED)",
                                     {"input": rel, "bytes": input_bytes(rel), "path": path,
                                      "mode": "isolated process history vs after all other inputs"})
+        solo_by_ext = dict(solo)
+        for (b_ext, a_ext), res in paired:
+            iso = solo_by_ext.get(a_ext, {})
+            for rel in sorted(res):
+                if Path(rel).suffix.lower() != a_ext or rel not in iso:
+                    continue
+                a, alone = res[rel][0], iso[rel][0]
+                ctx.case(("pair", b_ext, rel, a["digest"]), True, kind=f"history-pair:{b_ext}->{a_ext}")
+                if a["digest"] != alone["digest"] and alone["digest"] == iso[rel][1]["digest"]:
+                    for path in diff_paths(alone, a) or ["<digest only>"]:
+                        ctx.finding(f"history-dependent:{path}",
+                                    f"{path} depends on what the process did before: *{a_ext} extracted after the *{b_ext} inputs vs. "
+                                    f"in a fresh process ({rel}, same PYTHONHASHSEED)",
+                                    {"input": rel, "bytes": input_bytes(rel), "path": path, "mode": f"history pair {b_ext} -> {a_ext}"})
+        for kind, res in mimed:
+            for rel in sorted(res):
+                if rel not in base:
+                    continue
+                a, ref = res[rel][0], base[rel][0]
+                ctx.case(("mime", kind, rel, a["digest"]), True, kind="mime-db:" + kind)
+                if a["digest"] != ref["digest"] and ref["digest"] == base[rel][1]["digest"] and a["digest"] == res[rel][1]["digest"]:
+                    origin = "generated input" if rel.startswith("@1/") else "fixture"
+                    for path in diff_paths(ref, a) or ["<digest only>"]:
+                        ctx.finding(f"mime-db-dependent:{path}",
+                                    f"{path} depends on the host's mimetypes database ({kind} database vs. this host's default; "
+                                    f"{origin} {rel})",
+                                    {"input": rel, "bytes": input_bytes(rel), "path": path, "mime_database": kind})
         ctx.extra["inputs_per_worker"] = len(base)
         ctx.extra["hash_seeds"] = [s for s, _ in results]
     td_obj.cleanup()
 
-    mark("history-workers")
+    mark("mime-workers")
     # ---- D4: stream position/content discipline of the two modelled helpers (tie of Part C)
     stream_oracle(ctx)
     mark("stream")
